@@ -137,6 +137,15 @@ def check(rep, tier, seed):
         if a.startswith("entry-points-differ") and bad is None:
             bad = (l, a)
     rep.coverage["entry_point_history_cases"] = len(elines)
+    # sources over more than 4 GiB (zeroed pages): the same primitives at the start and at the very end from all three
+    hout = C.run([harness, "ioops-huge"], timeout=300, check=False).stdout.strip().splitlines()
+    want = "Ok(16384) Ok(0) Ok(()) Ok(65535) Err(\"InputEnded\")"
+    rep.coverage["sources_over_4GiB"] = hout
+    for l in hout or ["HUGE (no output)"]:
+        if not l.endswith(want) and bad is None:
+            bad = ("ioops-huge: a source over 2^32 + 2 bytes", l)
+    if len(hout) != 3 and bad is None:
+        bad = ("ioops-huge", "the probe did not finish: " + " | ".join(hout))
     # derived and evolved records (chunk buffers, headers with sizes of every var-int width): the bytes on Vec<u8> and
     # BytesMut, the size calculator's count, and the same three under a caller-pushed buffer (a user-defined
     # length-prefixed frame built on push_buffer / pop_buffer) must agree
